@@ -44,6 +44,17 @@ CLAIMED["C10"] = dict(
     note=TB_COMMON + "sympy.diff is taken to be a derivation (contract). The numerical clause is a runtime observation (lambdify instead of Cython autowrap in quick runs), not a theorem.",
     ref="DESIGN.md 4 C10")
 
+CLAIMED["C02"] = dict(
+    technique="Lean 4 theorems over any commutative ring about the term-wise split and the assembly/sub-system/numeric-expression algebra; per-term bucket correspondence with the real split and value-level correspondence of get_sub_system",
+    text="Proof: split_lossless (the three buckets add up to the expression for every term list, every parameter set and variable order; first match wins), split_const_coeffs, fromOde_lossless (re-attachment of foreign linear terms), unit_row_value (lower derivatives), subsystem_lossless (discarded columns moved into c), numericRhs_eq_row and the composition numericRhs_eq_userRhs - for all sizes and values over any commutative ring. Tie: every call of split_lin_inhom_nonlin made by the real analysis is recorded and the bucket of every term compared with the model's; get_sub_system's c and the Jacobian row expression are compared on values at random rational points; direct oracle: returned numeric update expressions vs the user's text at random points, preserved text compared verbatim, all flag combinations swept.",
+    note=TB_COMMON + "Denotation-preservation of parse_expr/str/expand/simplify/collect and of the user's simplify_expression are contracts (spot-validated by the value comparisons).",
+    ref="DESIGN.md 4 C02")
+CLAIMED["C04"] = dict(
+    technique="Lean 4 theorems: completeness of the term classification on canonical linear terms + greatest-fixed-point characterisation of the verdict (order-independent); spelling sweep against an independent differential criterion",
+    text="Proof: classify_complete_lin/const and canonical_linear_no_nonlin (a right-hand side whose expanded terms are k*x or parameter-only has an empty nonlinear part, for any number and order of terms), parameterSymbols_spec, and from the graph model tractable_recognised / propagate_greatest (every dependency-closed set of eligible variables is solved analytically) and verdict_perm_invariant. Tie/search: 6-10 algebraically equal spellings and entry orders per ground truth; the code's analytic set must contain the independently computed expected set and must not vary across spellings; split and verdict correspondences as in C02/C03.",
+    note=TB_COMMON + "Independence of the spelling rests on sympy's expand() producing a sum of monomial terms with like terms combined (contract, validated per case); the theorems start from the expanded form.",
+    ref="DESIGN.md 4 C04")
+
 NOT_YET = {}
 
 def main():
